@@ -54,13 +54,23 @@ struct Fuzzy {
 	bool operator!=(const Fuzzy &o) const { return !(*this == o); }
 };
 static_assert(std::is_trivially_copyable_v<Fuzzy>);
+// Lifetime-registering element with an initializer_list constructor: a container that builds its elements as T{args...}
+// instead of T(args...) (what emplace of the reference containers does) picks this constructor and stores another value.
+struct Braced : Tracked {
+	Braced() = default;
+	Braced(int x) : Tracked(x) {}
+	Braced(std::initializer_list<int> il) : Tracked(il.size() ? (*il.begin() ^ 0x40000000) : -7) {}
+};
 using verif::payload;
 int payload(const Fuzzy &f) { return f.v; }
 template<typename T> bool elem_eq(int a, int b) { return T(a) == T(b); }
 int payload(const Anchored &a) { return a.get(); }
+// payload left behind in an element that was moved from (Tracked marks it, the others keep their value)
+template<typename T> int moved_payload(int x) { if constexpr(std::is_base_of_v<Tracked, T>) return -1; else return x; }
 template<typename T> struct Name;
 template<> struct Name<Anchored> { static constexpr const char *n = "Anchored"; };
 template<> struct Name<Fuzzy> { static constexpr const char *n = "Fuzzy"; };
+template<> struct Name<Braced> { static constexpr const char *n = "Braced"; };
 template<> struct Name<int> { static constexpr const char *n = "int"; };
 template<> struct Name<Tracked> { static constexpr const char *n = "Tracked"; };
 
@@ -136,7 +146,7 @@ void run_vector(Ctx &c) {
 		if(!slot[s]) s = 0;
 		V &v = *slot[s];
 		size_t before = ref[s].size();
-		unsigned op = t.pick(19);
+		unsigned op = t.pick(25);
 		switch(op) {
 		case 0: { int x = nextv++; T e(x); c.op("v%d.push(const& %d)", s, x); T &r = v.push(e); ref[s].push_back(x); VCHECK(c, "C13", &r == &v[v.size() - 1], "push returned a reference to another element"); break; }
 		case 1: { int x = nextv++; T e(x); c.op("v%d.push(&& %d)", s, x); v.push(std::move(e)); ref[s].push_back(x); break; }
@@ -169,6 +179,14 @@ void run_vector(Ctx &c) {
 			if(exp) c.tag("equal-but-not-bytewise"); else c.tag("differ-in-one-element");
 			VCHECK(c, "C13", eq == exp && ne == !eq, "operator== gives %d and != gives %d, element-wise equality is %d", (int)eq, (int)ne, (int)exp); break; }
 		case 16: if(!ref[s].empty()) { size_t k = t.pick(ref[s].size()); int x = t.flip() ? ref[s][k] + 16 : nextv++; c.op("v%d[%zu] = %d", s, k, x); v[k] = T(x); ref[s][k] = x; } break;
+		// arguments that refer to an element of the container itself (std::vector supports all of them, also when the call reallocates)
+		case 19: case 20: case 21: case 22: if(!ref[s].empty()) { size_t k = t.pick(ref[s].size()); int x = ref[s][k]; const void *before_data = v.data();
+			if(op == 19) { c.op("v%d.push(v%d[%zu])", s, s, k); v.push(v[k]); ref[s].push_back(x); }
+			else if(op == 20) { c.op("v%d.emplace_back(v%d[%zu])", s, s, k); v.emplace_back(v[k]); ref[s].push_back(x); }
+			else if(op == 21) { c.op("v%d.push(move(v%d[%zu]))", s, s, k); v.push(std::move(v[k])); ref[s].push_back(x); ref[s][k] = moved_payload<T>(x); }
+			else { size_t n = ref[s].size() + 1 + t.pick(6); c.op("v%d.resize(%zu, v%d[%zu])", s, n, s, k); v.resize(n, v[k]); ref[s].resize(n, x); }
+			c.tag(v.data() != before_data ? "alias-arg-realloc" : "alias-arg-in-place"); } break;
+		case 23: { size_t n = ref[s].size() + t.pick(5); int x = nextv++; c.op("v%d.resize(%zu, T(%d)) (rvalue)", s, n, x); if(n >= ref[s].size() + 2) c.tag("resize-rvalue-multi"); v.resize(n, T(x)); ref[s].resize(n, x); break; }
 		default: { unsigned k = 1 + t.pick(20); c.op("v%d push x%u", s, k); for(unsigned j = 0; j < k; j++) { int x = nextv++; v.emplace_back(x); ref[s].push_back(x); } break; }
 		}
 		thresholds(before, ref[s].size());
@@ -225,7 +243,7 @@ void run_small_vector(Ctx &c) {
 		if(!slot[s]) s = 0;
 		V &v = *slot[s];
 		size_t before = ref[s].size();
-		unsigned op = t.pick(13);
+		unsigned op = t.pick(20);
 		switch(op) {
 		case 0: { int x = nextv++; T e(x); c.op("s%d.push_back(const& %d)", s, x); T &r = v.push_back(e); ref[s].push_back(x); VCHECK(c, "C13", &r == &v[v.size() - 1], "push_back returned a reference to another element"); break; }
 		case 1: { int x = nextv++; T e(x); c.op("s%d.push_back(&& %d)", s, x); v.push_back(std::move(e)); ref[s].push_back(x); break; }
@@ -242,6 +260,14 @@ void run_small_vector(Ctx &c) {
 			if(!ref[d].empty() && !ref[s].empty()) { f.pair_op_nonempty = true; c.tag((ref[s].size() <= N) == (ref[d].size() <= N) ? (ref[s].size() <= N ? "sv-swap-inline-inline" : "sv-swap-heap-heap") : "sv-swap-inline-heap"); }
 			swap(v, *slot[d]); std::swap(ref[s], ref[d]); break; }
 		case 11: if(!ref[s].empty()) { size_t k = t.pick(ref[s].size()); int x = nextv++; c.op("s%d[%zu] = %d", s, k, x); v[k] = T(x); ref[s][k] = x; } break;
+		case 13: case 14: case 15: case 16: if(!ref[s].empty()) { size_t k = t.pick(ref[s].size()); int x = ref[s][k]; const void *before_data = v.data();
+			if(op == 13) { c.op("s%d.push_back(s%d[%zu])", s, s, k); v.push_back(v[k]); ref[s].push_back(x); }
+			else if(op == 14) { c.op("s%d.emplace_back(s%d[%zu])", s, s, k); v.emplace_back(v[k]); ref[s].push_back(x); }
+			else if(op == 15) { c.op("s%d.push_back(move(s%d[%zu]))", s, s, k); v.push_back(std::move(v[k])); ref[s].push_back(x); ref[s][k] = moved_payload<T>(x); }
+			else { size_t n = ref[s].size() + 1 + t.pick(6); c.op("s%d.resize(%zu, s%d[%zu])", s, n, s, k); v.resize(n, v[k]); ref[s].resize(n, x); }
+			c.tag(v.data() != before_data ? "alias-arg-realloc" : "alias-arg-in-place"); } break;
+		case 17: { size_t n = ref[s].size() + t.pick(5); int x = nextv++; c.op("s%d.resize(%zu, T(%d)) (rvalue)", s, n, x); if(n >= ref[s].size() + 2) c.tag("resize-rvalue-multi"); v.resize(n, T(x)); ref[s].resize(n, x); break; }
+		case 18: { c.op("swap(s%d, s%d) (self)", s, s); V &alias = v; swap(v, alias); c.tag(ref[s].empty() ? "sv-self-swap-empty" : ref[s].size() <= N ? "sv-self-swap-inline" : "sv-self-swap-heap"); break; }
 		default: { unsigned k = 1 + t.pick(2 * N + 3); c.op("s%d push x%u", s, k); for(unsigned j = 0; j < k; j++) { int x = nextv++; v.emplace_back(x); ref[s].push_back(x); } break; }
 		}
 		thresholds(before, ref[s].size());
@@ -313,9 +339,10 @@ void run_stack(Ctx &c) {
 	unsigned nops = 1 + t.pick(60);
 	for(unsigned i = 0; i < nops; i++) {
 		size_t before = ref.size();
-		switch(t.pick(5)) {
+		switch(t.pick(6)) {
 		case 0: case 1: { int x = nextv++; const T e(x); c.op("push(%d)", x); st->push(e); ref.push_back(x); break; }
 		case 2: { int x = nextv++; c.op("emplace(%d)", x); st->emplace(x); ref.push_back(x); break; }
+		case 3: if(!ref.empty()) { c.op("push(top())"); c.tag("stack-push-top"); st->push(st->top()); ref.push_back(ref.back()); } break;
 		default: if(!ref.empty()) { c.op("pop()"); st->pop(); ref.pop_back(); f.released_before_end = true; } break;
 		}
 		if(ref.size() > before) for(size_t th : {size_t(0), size_t(2), size_t(6), size_t(14)}) if(before <= th && ref.size() > th) f.crossed_up = true;
@@ -440,12 +467,71 @@ void run_intrusive(Ctx &c) {
 	if(did_splice) c.tag("splice-nonempty"); if(did_mid_erase) c.tag("mid-erase"); if(did_mid_insert) c.tag("mid-insert");
 }
 
+// ---- assignment from a source that the destination owns ----------------------------------
+// node { id, kids }: parent.kids = parent.kids[k].kids (copy and move). The source vector lives in an element of the
+// destination; the model computes the result from a deep copy taken before the call.
+struct Node {
+	Tracked id; frg::vector<Node, track_alloc> kids;
+	Node(int i) : id(i), kids(track_alloc{}) {}
+};
+struct MNode { int id; std::vector<MNode> kids; };
+struct DNode {
+	Tracked id; frg::dyn_array<DNode, track_alloc> kids;
+	DNode() : id(0), kids() {}
+};
+void build(Tape &t, Node &n, MNode &m, int depth, int &next) {
+	unsigned k = depth >= 3 ? 0 : t.pick(depth == 0 ? 5 : 4);
+	for(unsigned i = 0; i < k; i++) { int id = next++; n.kids.emplace_back(id); m.kids.push_back(MNode{id, {}}); }
+	for(unsigned i = 0; i < k; i++) build(t, n.kids[i], m.kids[i], depth + 1, next);
+}
+void compare(Ctx &c, const Node &n, const MNode &m, const char *after) {
+	VCHECK(c, "C13", n.id.get() == m.id, "after %s: node holds id %d, reference %d", after, n.id.get(), m.id);
+	VCHECK(c, "C13", n.kids.size() == m.kids.size(), "after %s: node %d has %zu children, reference %zu", after, m.id, n.kids.size(), m.kids.size());
+	for(size_t i = 0; i < m.kids.size(); i++) compare(c, n.kids[i], m.kids[i], after);
+}
+void run_nested(Ctx &c) {
+	auto &t = c.t;
+	c.op("vector<node{id, vector<node>}>: assignment from a vector owned by an element of the destination");
+	int next = 1;
+	Node *root = c.make<Node>(0);
+	MNode mroot{0, {}};
+	build(t, *root, mroot, 0, next);
+	compare(c, *root, mroot, "construction");
+	unsigned nops = 1 + t.pick(6);
+	bool did = false;
+	for(unsigned i = 0; i < nops; i++) {
+		// walk to a random node that has children
+		Node *n = root; MNode *m = &mroot;
+		while(!m->kids.empty() && t.pick(3) == 0) { size_t k = t.pick(m->kids.size()); n = &n->kids[k]; m = &m->kids[k]; }
+		if(m->kids.empty()) { int id = next++; c.op("node %d: emplace_back(%d)", m->id, id); n->kids.emplace_back(id); m->kids.push_back(MNode{id, {}}); compare(c, *root, mroot, "emplace_back"); continue; }
+		size_t k = t.pick(m->kids.size());
+		unsigned op = t.pick(4);
+		if(op == 0) { c.op("node %d: kids = kids[%zu].kids (copy)", m->id, k); c.tag("assign-from-owned-copy"); std::vector<MNode> tmp = m->kids[k].kids; n->kids = n->kids[k].kids; m->kids = tmp; did = true; }
+		else if(op == 1) { c.op("node %d: kids = move(kids[%zu].kids)", m->id, k); c.tag("assign-from-owned-move"); std::vector<MNode> tmp = std::move(m->kids[k].kids); n->kids = std::move(n->kids[k].kids); m->kids = tmp; did = true; }
+		else if(op == 2) { c.op("node %d: kids.push(kids[%zu]) (element copied into its own container)", m->id, k); c.tag("push-own-element-deep"); MNode tmp = m->kids[k]; n->kids.push(n->kids[k]); m->kids.push_back(tmp); }
+		else { c.op("node %d: kids[%zu].kids = kids (child receives a copy of the vector that holds it)", m->id, k); c.tag("assign-container-to-owned"); std::vector<MNode> tmp = m->kids; n->kids[k].kids = n->kids; m->kids[k].kids = tmp; }
+		compare(c, *root, mroot, "the assignment");
+		c.check_san("C13");
+		VTRACK_POLL(c);
+	}
+	c.op("destroy");
+	c.destroy(root);
+	VTRACK_END(c);
+	c.nontrivial = did;
+}
+
 } // namespace
 
 void verif_case(Ctx &c) {
-	unsigned kind = c.t.pick(18);
+	unsigned kind = c.t.pick(24);
 	c.tagf("kind-%u", kind);
 	switch(kind) {
+	case 18: run_vector<Braced>(c); return;
+	case 19: run_small_vector<Braced, 4>(c); return;
+	case 20: run_stack<Braced>(c); return;
+	case 21: run_list<Braced>(c); return;
+	case 22: run_dyn_array<Braced>(c); return;
+	case 23: run_nested(c); return;
 	case 13: run_vector<Anchored>(c); return;
 	case 14: run_small_vector<Anchored, 4>(c); return;
 	case 15: run_dyn_array<Anchored>(c); return;
